@@ -797,8 +797,8 @@ def part3_fresh_process(ctx):
 
 def run(ctx):
     p1 = part1_worklists(ctx)
-    p2 = part2_hashseed(ctx)
-    p3 = part3_fresh_process(ctx)
+    from checks import c10b
+    p2, p3 = c10b.run_parts(ctx, dict(CORPUS))
     return {
         "states": p1["states"],
         "transitions": p1["transitions"],
@@ -827,6 +827,9 @@ def run(ctx):
 
 
 def replay(ctx, item):
+    if item.get("part") == 2:
+        from checks import c10b
+        return c10b.replay(ctx, item)
     from vlib import schedx
     src = item["src"]
     outs = []
